@@ -10,7 +10,6 @@ import (
 	"golang.org/x/tools/go/ssa"
 )
 
-
 // onlySignalsEOF: every return of f carries a nil error or the io.EOF
 // sentinel (a condition the caller re-derives through IsEOF()).
 func onlySignalsEOF(f *ssa.Function) bool {
